@@ -42,6 +42,21 @@
 (*    white space, other letter case, trailing slash / fragment), or an     *)
 (*    unrelated unknown string (cfg.method x cfg.mform).                    *)
 (*  - histories of renderings of one message value: SPEmitRenderHistory.    *)
+(*                                                                         *)
+(* Two dimensions of the ENVIRONMENT the signing clauses of C13 quantify    *)
+(* over silently (round 5):                                                 *)
+(*  - what the IdP's metadata says about signed requests: the attribute     *)
+(*    WantAuthnRequestsSigned of its IDPSSODescriptor is absent, "true" or  *)
+(*    "false" (cfg.idpwants).  The statement makes the signature depend on  *)
+(*    the SP's configuration alone ("when request signing is configured"):  *)
+(*    whether a message is signed, or refused, never reads cfg.idpwants.    *)
+(*  - the SP's certificate chain: sp.Intermediates holds no, one or two CA  *)
+(*    certificates (cfg.chain).  sp.Metadata() publishes sp.Certificate     *)
+(*    followed by the intermediates in the signing KeyDescriptor            *)
+(*    (Published); every message is signed with sp.Key, whose certificate   *)
+(*    is sp.Certificate (SignedBy, KeyInfoCerts).  "The certificate in the  *)
+(*    SP's published metadata" is the FIRST certificate of that             *)
+(*    KeyDescriptor (VerifierCert): the signature must verify under it.     *)
 (***************************************************************************)
 EXTENDS Integers, Sequences, FiniteSets, TLC, Json
 
@@ -85,6 +100,11 @@ RsaKeys == {"rsa1024", "rsa2048", "rsa3072", "rsa4096"}
 EcKeys  == {"ec256", "ec384", "ec521"}
 Keys    == RsaKeys \cup EcKeys
 
+\* the IdP's metadata: attribute WantAuthnRequestsSigned of the IDPSSODescriptor (metadata.go:403, a *bool)
+IdpWants == {"absent", "true", "false"}
+\* sp.Intermediates (service_provider.go:80): the CA certificates between sp.Certificate and the trust anchor
+Chains   == {"none", "one", "two"}
+
 NidFmts == {"unset", "transient", "unspecified", "email", "persistent"}
 Forces  == {"nil", "true", "false"}
 
@@ -94,7 +114,7 @@ Blob(s)   == Tok("blob", s)
 AMP == Tok("amp", "")
 EQ  == Tok("eq", "")
 
-VARIABLES cfg,      \* [query, method, mform, key, nidfmt, force, rac]
+VARIABLES cfg,      \* [query, method, mform, key, nidfmt, force, rac, idpwants, chain]
           in,       \* [fam, kind, binding, relay, nameid, dest, swap]
           md,       \* sp.IDPMetadata now: the locations for the service and binding in use, in document order
           target,   \* [Variants -> endpoint] the URL the encoder writes the message to
@@ -113,7 +133,8 @@ vars == <<cfg, in, md, target, pc, rnd, ids, msg, outcome, sigform, wire, signed
 ----------------------------------------------------------------------------
 (* input families *)
 
-BaseCfg == [query |-> "none", method |-> "", mform |-> "exact", key |-> "rsa2048", nidfmt |-> "unset", force |-> "nil", rac |-> FALSE]
+BaseCfg == [query |-> "none", method |-> "", mform |-> "exact", key |-> "rsa2048", nidfmt |-> "unset", force |-> "nil", rac |-> FALSE,
+            idpwants |-> "absent", chain |-> "none"]
 InAt(f, k, b, rs, nid, d, sw) == [fam |-> f, kind |-> k, binding |-> b, relay |-> rs, nameid |-> nid, dest |-> d, swap |-> sw]
 In(f, k, b, rs, nid) == InAt(f, k, b, rs, nid, "first", FALSE)
 NidFor(k) == IF k = "logoutreq" THEN <<"plain">> ELSE <<>>
@@ -182,13 +203,33 @@ FamSigNear(relays, queries) ==
   \/ \E f \in NearForms, m \in Methods, ky \in Keys :
       /\ cfg = [BaseCfg EXCEPT !.method = m, !.mform = f, !.key = ky]
       /\ in = In("sig", "artifact", "soap", <<>>, <<>>)
+\* C13: the environment of the signing decision - what the IdP's metadata says it wants x the SP's certificate
+\* chain - through every kind and binding: fitting method/key pairs (MustAccept), an unknown method and both
+\* family mismatches (MustReject: refused whatever the IdP wants), signing off.  (absent, none) is FamSig's case.
+EnvAll    == (IdpWants \X Chains) \ {<<"absent", "none">>}
+\* covering subset: every value of each dimension alone, and every value paired with a non-default of the other
+EnvQuick  == { <<"true", "none">>, <<"false", "none">>, <<"absent", "one">>, <<"absent", "two">>, <<"false", "two">>, <<"true", "one">> }
+\* each of the eight methods with a key of its family (every key once), an unknown method, both mismatches, off
+EnvPairsQ == { <<"rsa-sha1", "rsa1024">>, <<"rsa-sha256", "rsa2048">>, <<"rsa-sha384", "rsa3072">>, <<"rsa-sha512", "rsa4096">>,
+               <<"ecdsa-sha1", "ec256">>, <<"ecdsa-sha256", "ec256">>, <<"ecdsa-sha384", "ec384">>, <<"ecdsa-sha512", "ec521">>,
+               <<"unknown", "rsa2048">>, <<"ecdsa-sha256", "rsa2048">>, <<"rsa-sha256", "ec256">>, <<"", "rsa2048">> }
+EnvPairsT == MethodCfgs \X Keys
+FamSigEnv(envs, pairs, relays, queries) ==
+  \/ \E e \in envs, mk \in pairs, k \in Kinds \ {"artifact"}, b \in Bindings, q \in queries, rs \in relays :
+      /\ cfg = [BaseCfg EXCEPT !.query = q, !.method = mk[1], !.key = mk[2], !.idpwants = e[1], !.chain = e[2]]
+      /\ in = In("sig", k, b, rs, NidFor(k))
+  \/ \E e \in envs, mk \in pairs :
+      /\ cfg = [BaseCfg EXCEPT !.method = mk[1], !.key = mk[2], !.idpwants = e[1], !.chain = e[2]]
+      /\ in = In("sig", "artifact", "soap", <<>>, <<>>)
 \* ID freshness: arbitrary sequences of creations
 FamSeq == cfg = BaseCfg /\ in = In("seq", "seq", "none", <<>>, <<>>)
 
 Cases == CASE Family = "C12q" -> FamRelay(2) \/ FamNameID(2) \/ FamConfig \/ FamDest \/ FamSeq
            [] Family = "C12t" -> FamRelay(3) \/ FamNameID(3) \/ FamConfig \/ FamDest \/ FamSeq
            [] Family = "C13q" -> FamSig(SigRelaysQ, Queries) \/ FamSigDest \/ FamSigNear({<<"plain">>}, {"none", "ab"})
+                                   \/ FamSigEnv(EnvQuick, EnvPairsQ, {<<>>, <<"amp", "eq">>}, {"none", "ab"})
            [] Family = "C13t" -> FamSig(SigRelaysT, Queries) \/ FamSigDest \/ FamSigNear({<<>>, <<"plain">>, <<"amp", "eq">>}, Queries)
+                                   \/ FamSigEnv(EnvAll, EnvPairsT, {<<>>, <<"amp", "eq">>}, {"none", "ab"})
 
 \* the IdP's endpoints ---------------------------------------------------------------------------------
 \* an endpoint is [svc, at, query]: which service, which URL (scheme, host, path), which query string it carries.
@@ -231,6 +272,23 @@ Signing == cfg.method # ""
 \* which gets the detached query-string signature in Redirect() instead
 SignsEnveloped == Signing /\ ~(in.kind = "authn" /\ in.binding = "redirect")
 SignsDetached  == Signing /\ in.kind = "authn" /\ in.binding = "redirect"
+
+\* Neither decision reads what the IdP's metadata says about signed requests (cfg.idpwants): Redirect() asks
+\* len(sp.SignatureMethod) > 0 only (:324), and so do the creation functions (:520 :557 :1403 :1517).
+
+\* sp.Metadata() :190-226 - the KeyDescriptor use="signing" exists iff a signature method is configured; its
+\* X509Certificate carries the DER of sp.Certificate followed by the DER of every intermediate, in order
+\* (:193-196 certBytes := sp.Certificate.Raw; for each intermediate: append).  Certificates are named by
+\* their position in the chain: "leaf" = sp.Certificate (the certificate of sp.Key), "ca1" its issuer, "ca2"
+\* the issuer of "ca1".
+Intermediates == CASE cfg.chain = "none" -> <<>>
+                   [] cfg.chain = "one"  -> <<"ca1">>
+                   [] cfg.chain = "two"  -> <<"ca1", "ca2">>
+Published == IF Signing THEN <<"leaf">> \o Intermediates ELSE <<>>
+\* every signing context signs with sp.Key and names sp.Certificate in ds:KeyInfo - and only it (:567-575: the
+\* intermediates are NOT added to the key store's chain)
+SignedBy     == "leaf"
+KeyInfoCerts == <<"leaf">>
 
 ----------------------------------------------------------------------------
 (* message creation and the random stream, :501-556 :1366-1390 :1480-1504; util.go:25-33 *)
@@ -537,6 +595,15 @@ RefusesMismatch  == Done /\ MustRefuse => outcome = "error" /\ wire["req"] = <<>
 CarriesSignature == Done /\ MustSign => outcome = "ok" /\ sigform = RequiredForm
 UnsignedWhenOff  == Done /\ ~Signing => outcome = "ok" /\ sigform = "none"
 SignedOctetsExact == Wired => F("req").signedExact /\ F("req").sigParams
+\* "verifies under the certificate in the SP's published metadata": the certificate a relying party takes
+\* from the signing KeyDescriptor is the FIRST one it lists; with a certificate chain configured the others are
+\* CA certificates, under which no message of the SP verifies
+VerifierCert == IF Published = <<>> THEN "none" ELSE Published[1]
+VerifiesUnderPublished == Done /\ MustSign => outcome = "ok" /\ VerifierCert = SignedBy /\ KeyInfoCerts[1] = VerifierCert
+\* "when request signing is configured": for every wish of the IdP - absent, true, false - the message is signed
+\* or refused, never sent without a signature (the case split of CarriesSignature / RefusesMismatch leaves no
+\* room for cfg.idpwants; stated on its own so that the cfg shows which clause covers the dimension)
+SignedWhateverIdpWants == Done /\ Signing => (outcome = "ok" /\ sigform = RequiredForm) \/ (outcome = "error" /\ sigform = "none")
 SigningTableTotal == \A m \in MethodCfgs \ {""}, f \in MethodForms, k \in Keys : SigningContext(m, f, k) \in {"ok", "error"}
 \* model consistency: the one-step functions are the two-step API called with the metadata's first location
 OneStepIsFirstLocation == OneStepPossible /\ in.kind \in Kinds \ {"artifact"} => Given = FirstLocation(MdAtCreate) /\ md = MdAtCreate
@@ -562,6 +629,10 @@ Pred(v) == IF outcome = "ok" /\ in.binding \in Bindings
 Emit == Done => PrintT(<<"VEC", ToJson([prop |-> Family, cfg |-> cfg, in |-> in, class |-> Class,
                                          required |-> [form |-> IF Signing THEN RequiredForm ELSE "none",
                                                        policy |-> Policy, nearmiss |-> NearMiss,
-                                                       onestep |-> OneStepPossible],
+                                                       onestep |-> OneStepPossible,
+                                                       \* the published certificate the signature must verify under
+                                                       verifier |-> IF MustSign THEN SignedBy ELSE "none"],
+                                         \* the signing KeyDescriptor of sp.Metadata(), certificates in order
+                                         published |-> Published,
                                          pred |-> [req |-> Pred("req"), pin |-> Pred("pin")]])>>)
 =============================================================================
